@@ -227,7 +227,7 @@ theorem gmmTail_spec {α} (K : Kern) (P : PPrms α) (q : Rat) (hK : KernOK K q) 
       simpa using this.symm
     subst hib
     have hlen := hK.gmm_len P.gmmScores sc (i + 1)
-    have hlt := hK.gmm_lt P.gmmScores sc (i + 1)
+    have hlt := hK.gmm_lt P.gmmScores sc (i + 1) (Nat.succ_pos i)
     simp only at h
     split_ifs at h with h1
     · cases h
